@@ -31,7 +31,7 @@ def prop(pid, rules, explanation, level, note, technique, design_ref, assumption
 
 
 prop('C01',
-     [PD.pd1, PD.pd2, PD.pd3, PD.pd4, PD.pd5, PD.pd8, SC.pd6, MI.pd0, MI.tx1, MI.df1, OK.ok4, EM.em1, AB.ab1, LS.ls1, LS.ls1_ml, LS.ls1_shell, AB.ab3, R2.okv,
+     [PD.pd1, PD.pd2, PD.pd3, PD.pd4, PD.pd5, PD.pd8, SC.pd6, MI.pd0, MI.tx1, MI.df1, OK.ok4, EM.em1, AB.ab1, LS.ls1, LS.ls1_ml, LS.ls1_shell, LS.ls1w, AB.ab3, R2.okv,
       T.sp3],
      'inductive argument from static rules: tokens outside the scanner are pinned, '
      'single-character or faithful copies (PD1, PD2, SP3), pinned positions are never shifted '
